@@ -23,7 +23,8 @@ EXPLANATION = (
     ' Fourth round: Prolog text decodes (R7.9: escaping steps of quoted atoms do not rewrite each other, the arguments of a Japanese term are comma-separated); the html category splitter accepts every feature spelling of the shipped inventories (R7.10).'
     ' Fifth round: records numbered by a per-tree counter (R7.3), positions found by searching for an equal element (R7.11), field order of the extended AUTO leaf (R7.12).'
     ' Sixth and seventh round: a flat n-best list is one sentence (R7.3), the width an inner node of the deriv layout reports (R7.5), str.format only on templates written in the source, no module-level table filled by a rendering (R7.13), no tree of the list skipped (numbering:every-tree); the conll head rules hold for either index convention.'
-    ' Eighth round: numbering follows a record loop flattened into one comprehension; every POS / inflection level is written; Tree.word hands the words out verbatim.')
+    ' Eighth round: numbering follows a record loop flattened into one comprehension; every POS / inflection level is written; Tree.word hands the words out verbatim.'
+    ' Ninth and tenth round: R7.14 -- the Jigg span categories write the base alone only for an atom without a feature value.')
 TRUSTED = ['CPython ast', 'sa/pysym.py path walker', 'rule table DESIGN.md C07']
 
 CONLL = 'depccg/printer/conll.py'
